@@ -42,7 +42,8 @@ def TOK(text):
 
 
 class Brk(Exception):
-    pass
+    def __init__(self, value=None):
+        self.value = value
 
 
 class Cont(Exception):
@@ -211,7 +212,36 @@ class AEval(dtable.Eval):
         if k == "Return":
             raise Ret(self.ex(e["expr"], env) if e.get("expr") else UNIT)
         if k == "Break":
-            raise Brk()
+            raise Brk(self.ex(e["expr"], env) if is_node(e.get("expr")) else None)
+        if k in ("While", "Loop"):
+            n_iter = 0
+            while True:
+                n_iter += 1
+                if n_iter > 64:
+                    raise Unknown("loop does not end within 64 iterations on this input")
+                e2 = env
+                if k == "While":
+                    c = e["cond"]
+                    if is_node(c) and c["k"] == "LetExpr":
+                        v = self.ex(c["expr"], env)
+                        b = self.pat(c["pat"], v, env)
+                        if b is None:
+                            return UNIT
+                        e2 = dict(env)
+                        e2.update(b)
+                    elif not self.truth(c, env):
+                        return UNIT
+                try:
+                    self.ex(e["body"], e2)
+                except Cont:
+                    pass
+                except Brk as bk:
+                    return bk.value if bk.value is not None else UNIT
+                finally:
+                    if e2 is not env:
+                        for kk in env:
+                            if kk in e2 and not (k == "While" and is_node(e["cond"]) and e["cond"]["k"] == "LetExpr" and kk in b):
+                                env[kk] = e2[kk]
         if k == "Continue":
             raise Cont()
         if k == "Try":
@@ -407,6 +437,9 @@ class AEval(dtable.Eval):
                 return C("None")
             env[rnode["path"]] = ("list", lst[1:])
             return C("Some", lst[0])
+        if m == "clear" and not e["args"] and is_node(rnode) and rnode["k"] == "Path" and rnode["path"] in env and env[rnode["path"]][0] == "list":
+            env[rnode["path"]] = L()
+            return UNIT
         if m in ("push", "push_back", "insert", "extend") and is_node(rnode) and rnode["k"] == "Path" and rnode["path"] in env and env[rnode["path"]][0] == "list":
             vals = [self.ex(a, env) for a in e["args"]]
             cur = list(env[rnode["path"]][1])
